@@ -390,7 +390,11 @@ func (fp *factsProg) analyse(name, kind, typeName string, roots []*ssa.Function,
 					}
 					lf.RiskSites++
 					if ta, ok := x.(*ssa.TypeAssert); ok && !isInit {
-						uncheckedAsserts = append(uncheckedAsserts, [2]string{funcKey(f), types.TypeString(ta.AssertedType, shortQual)})
+						h := "00000000"
+						if syn := f.Syntax(); syn != nil {
+							h = textDigest(fp.prog.Fset, syn)
+						}
+						uncheckedAsserts = append(uncheckedAsserts, [2]string{funcKey(f), types.TypeString(ta.AssertedType, shortQual) + "|h=" + h})
 					}
 				case *ssa.Panic:
 					if !isInit {
@@ -478,7 +482,7 @@ func (fp *factsProg) analyse(name, kind, typeName string, roots []*ssa.Function,
 	// (the usual shape: CheckApplies tests the type, Execute relies on it)
 	for _, ua := range uncheckedAsserts {
 		guard := "type-not-tested-elsewhere"
-		if checkedTypes[ua[1]] {
+		if checkedTypes[strings.SplitN(ua[1], "|h=", 2)[0]] {
 			guard = "type-tested-with-comma-ok-in-closure"
 		}
 		addPanicSite(&lf, "typeassert|"+ua[0]+"|"+ua[1]+"|"+guard)
